@@ -14,7 +14,16 @@
    Player.TEIGetMove / GetMove, formatTime, over an arbitrary engine process [eng] (what it answers to each line written, when it
    closes its pipes), and [tei_proc]: Engine.Run of Tei.v as that process.  Proofs: coq/TeiClientFacts.v (the lines as
    strings.Fields reads them; the position line), TeiClientFacts2.v (the go line), TeiClientFmt.v, TeiClientFacts3.v (composition
-   client/engine; totality), non-vacuity on a real 14-ply game position: coq/TeiClientExamples.v.  Theorems C17_client_* below. *)
+   client/engine; totality), TeiClientFacts4.v (budget from the client's side), non-vacuity on a real 14-ply game position:
+   coq/TeiClientExamples.v.  Theorems C17_client_* below.
+   Behaviour of the client that the model has, the Go code shows (C17 check, client sessions) and no property forbids - observations:
+   (1) an engine output line without a word (empty / white space only) met by sendCommand's reading loop makes it panic with
+       index out of range at `words[0]` (also inside NewClient): PBlankLine, C17_client_total; the engine of Tei.v never prints one;
+   (2) a `go` the engine does not answer - a finished game: "search returned no move" is only logged - blocks TEIGetMove for ever
+       (the context is not watched while reading): RHang, TeiClientExamples.cx_finished_game_hangs;
+   (3) NewGame bumps the client's game number before it writes: when the write fails the current player is a dead player too.
+   Repaired (was a finding): a deadline less than 1 ms ahead was sent as `movetime 0` = no limit; now refused
+   (C17_client_go_refused, C17_client_deadline_always_capped, C17_client_deadline_uncapped_refuted_pinned). *)
 From Coq Require Import NArith ZArith List Bool String.
 Require Import Board Move GameOver PtnMove Playtak Tps TeiBudget Tei TeiSpec TeiFacts TeiTotal TeiExamples.
 Require TeiClient TeiClientFacts TeiClientFacts2 TeiClientFacts3 TeiClientFacts4 TeiClientExamples Preserve1 TpsFacts5 TpsFacts6 PreserveEx Generated.Consts.
@@ -193,9 +202,12 @@ Theorem C17_client_ms_round : forall d : Z,
 Proof. exact TeiClientFacts2.ms_round_spec. Qed.
 Print Assumptions C17_client_ms_round.
 
-(* The client refuses with "Timeout too short" exactly when one of the four clock values is neither 0 nor at least 1 ms. *)
+(* The client refuses with "Timeout too short" exactly when the context's deadline is less than 1 ms ahead (repair "tei client
+   refuses a deadline less than a millisecond away instead of sending movetime 0") or one of the four clock values is neither 0
+   nor at least 1 ms. *)
 Theorem C17_client_go_refused : forall (dl : option Z) (tc : option TeiClient.tctl),
   TeiClient.go_words dl tc = None <->
+  (exists d, dl = Some d /\ (d < 1000000)%Z) \/
   exists t, tc = Some t /\ ~ (TeiClientFacts2.sayable (TeiClient.tc_white t) /\ TeiClientFacts2.sayable (TeiClient.tc_black t) /\
                               TeiClientFacts2.sayable (TeiClient.tc_winc t) /\ TeiClientFacts2.sayable (TeiClient.tc_binc t)).
 Proof. exact TeiClientFacts2.go_words_none. Qed.
@@ -203,7 +215,7 @@ Print Assumptions C17_client_go_refused.
 
 (* The budget clause from the client's side: the thinking time the engine allots for the client's go line (go_limit = calcBudget of
    what it parsed) is strictly less than the CLIENT's clock of the side to move (when that clock is positive) and never more than
-   the time left until the CLIENT's deadline, when that is at least 1 ms ... *)
+   the time left until the CLIENT's deadline - for every deadline, since the repaired client never puts `movetime 0` on the wire. *)
 Theorem C17_client_budget_within_clock :
   forall (dl : option Z) (tc : option TeiClient.tctl) (ws : list (list N)) (white : bool),
   (forall d, dl = Some d -> TeiClientFacts2.int64 d) -> (forall t, tc = Some t -> TeiClientFacts2.tc_int64 t) ->
@@ -211,17 +223,27 @@ Theorem C17_client_budget_within_clock :
   exists a, parse_go (tl ws) targs0 = Some a /\
     forall b, go_limit white a = Some b ->
       (forall t, tc = Some t -> let tm := if white then TeiClient.tc_white t else TeiClient.tc_black t in (0 < tm)%Z -> (b < tm)%Z) /\
-      (forall d, dl = Some d -> (1000000 <= d)%Z -> (b <= d)%Z).
+      (forall d, dl = Some d -> (b <= d)%Z).
 Proof. exact TeiClientFacts4.client_budget_within_clock. Qed.
 Print Assumptions C17_client_budget_within_clock.
 
-(* ... but a deadline less than 1 ms ahead, or already passed, is sent as `movetime 0`, which the engine reads as NO per-move time:
-   with no clocks the search gets no time limit at all (recorded behaviour of client + engine; see the final report of build3-client). *)
-Theorem C17_client_deadline_below_1ms_uncapped :
-  forall (d : Z) (white : bool), TeiClientFacts2.int64 d -> (d < 1000000)%Z ->
-  exists ws a, TeiClient.go_words (Some d) None = Some ws /\ parse_go (tl ws) targs0 = Some a /\ movetime a = 0%Z /\ go_limit white a = None.
-Proof. exact TeiClientFacts4.client_deadline_below_1ms_uncapped. Qed.
-Print Assumptions C17_client_deadline_below_1ms_uncapped.
+(* ... and a context with a deadline ALWAYS caps the search: whenever the client writes a go line for it, the engine puts a time
+   limit on the searcher, at most the time left. *)
+Theorem C17_client_deadline_always_capped :
+  forall (d : Z) (tc : option TeiClient.tctl) (ws : list (list N)) (white : bool),
+  TeiClientFacts2.int64 d -> (forall t, tc = Some t -> TeiClientFacts2.tc_int64 t) -> TeiClient.go_words (Some d) tc = Some ws ->
+  exists a b, parse_go (tl ws) targs0 = Some a /\ go_limit white a = Some b /\ (b <= d)%Z.
+Proof. exact TeiClientFacts4.client_deadline_always_capped. Qed.
+Print Assumptions C17_client_deadline_always_capped.
+
+(* The code before the repair sent a deadline less than 1 ms ahead, or already passed, as `movetime 0`, which the engine reads
+   as NO per-move time: with no clocks the search got no time limit at all (kept as the record of the finding;
+   go_words_pinned = the old goCmd construction). *)
+Theorem C17_client_deadline_uncapped_refuted_pinned : exists d : Z, TeiClientFacts2.int64 d /\ (d < 1000000)%Z /\
+  exists ws a, TeiClient.go_words_pinned (Some d) None = Some ws /\ parse_go (tl ws) targs0 = Some a /\ movetime a = 0%Z /\
+               go_limit true a = None /\ go_limit false a = None.
+Proof. exact TeiClientFacts4.client_deadline_uncapped_pinned. Qed.
+Print Assumptions C17_client_deadline_uncapped_refuted_pinned.
 
 (* Composition.  A client in step with a running engine model (nothing unread in the pipe; sizes of the engine agree) calls
    NewGame(size p) and TEIGetMove(p) - p live, on the hypotheses of C10's exact round trip; deadline and clocks int64 values that
